@@ -61,7 +61,7 @@ def octet_helpers(modname):
 
 
 LEAN_TY = {'int': 'Int', 'bool': 'Bool', 'tup': 'Py.Tup', 'tups': 'List Py.Tup', 'fun:tup->tup': '(Py.Tup → Py.M Py.Tup)', 'unit': 'Unit', 'fun:int->unit': '(Int → Py.M Unit)',
-           'pairs': 'List (Py.Tup × Py.Tup)', 'pair': '(Py.Tup × Py.Tup)'}
+           'pairs': 'List (Py.Tup × Py.Tup)', 'pair': '(Py.Tup × Py.Tup)', 'bio': 'Py.BytesIO', 'otup': 'Option Py.Tup'}
 
 
 def find_function(tree, path):
@@ -77,8 +77,14 @@ def find_function(tree, path):
                     nodes = n.orelse
                     break
         else:
+            want_setter = p.endswith('@setter')
+            pname = p[:-7] if want_setter else p
             for n in nodes:
-                if isinstance(n, (ast.FunctionDef, ast.ClassDef)) and n.name == p:
+                if isinstance(n, (ast.FunctionDef, ast.ClassDef)) and n.name == pname:
+                    is_setter = isinstance(n, ast.FunctionDef) and any(
+                        isinstance(d_, ast.Attribute) and d_.attr == 'setter' for d_ in n.decorator_list)
+                    if want_setter != is_setter:
+                        continue
                     found = n
                     nodes = n.body
                     break
@@ -110,6 +116,23 @@ class Ctx(object):
     def tmp(self):
         self.ntmp += 1
         return 't%d_' % self.ntmp
+
+
+def state_var(cx_or_spec, e):
+    """self.<attr> for an attribute declared as object state in the kernel spec -> the local variable that carries it"""
+    spec = cx_or_spec if isinstance(cx_or_spec, dict) else cx_or_spec.spec
+    if (isinstance(e, ast.Attribute) and isinstance(e.value, ast.Name) and e.value.id == 'self'
+            and e.attr in spec.get('state', {})):
+        return 'self_' + e.attr
+    return None
+
+
+def need_tup(cx, v, tv, pre):
+    """an Optional octet string used where octets are required (`x + y`, `write(x)`, `len(x)`): None is Python's TypeError"""
+    if tv == 'otup':
+        t = cx.tmp()
+        return t, 'tup', pre + ['let %s ← Py.unwrap %s' % (t, v)]
+    return v, tv, pre
 
 
 def dotted(e):
@@ -151,6 +174,8 @@ def tr_expr(cx, env, e):
             cx.expr_params[nm] = 'fun:' + '->'.join(ty)
             tmp_ = cx.tmp()
             return tmp_, ty[-1], pre + ['let %s ← %s %s' % (tmp_, nm, ' '.join(args))]
+    if isinstance(e, ast.Constant) and e.value is None:
+        return '(none : Option Py.Tup)', 'otup', []
     if isinstance(e, ast.Constant):
         if isinstance(e.value, bool):
             return ('true' if e.value else 'false'), 'bool', []
@@ -163,6 +188,60 @@ def tr_expr(cx, env, e):
         if e.id == 'null' and 'null' in cx.octets:
             return '([] : Py.Tup)', 'tup', []
         raise Unsupported('unbound name %s' % e.id)
+    if state_var(cx, e):
+        return state_var(cx, e), cx.spec['state'][e.attr], []
+    if (isinstance(e, ast.Compare) and len(e.ops) == 1 and isinstance(e.ops[0], (ast.Is, ast.IsNot))
+            and isinstance(e.comparators[0], ast.Constant) and e.comparators[0].value is None):
+        a, ta, pa = tr_expr(cx, env, e.left)
+        if ta == 'otup':
+            return ('(%s).isNone' if isinstance(e.ops[0], ast.Is) else '(%s).isSome') % a, 'bool', pa
+        raise Unsupported('comparison with None of %s' % ta)
+    if isinstance(e, ast.Call) and isinstance(e.func, ast.Attribute) and state_var(cx, e.func.value) \
+            and cx.spec['state'][e.func.value.attr] == 'bio':
+        # methods of an io.BytesIO held in an attribute: the object is a value threaded through the translation
+        b = state_var(cx, e.func.value)
+        m = e.func.attr
+        if m == 'tell' and not e.args:
+            return '(%s).pos' % b, 'int', []
+        if m == 'read' and len(e.args) <= 1:
+            if e.args:
+                n, tn, pn = tr_expr(cx, env, e.args[0])
+            else:
+                n, tn, pn = '(-1 : Int)', 'int', []
+            if tn == 'int':
+                t = cx.tmp()
+                return t, 'tup', pn + ['let (%s, %s) := Py.bioRead %s %s' % (t, b, b, n)]
+        if m == 'write' and len(e.args) == 1:
+            d_, td, pd = need_tup(cx, *tr_expr(cx, env, e.args[0]))
+            if td == 'tup':
+                t = cx.tmp()
+                return t, 'int', pd + ['let (%s, %s) := Py.bioWrite %s %s' % (t, b, b, d_)]
+        if m == 'seek' and len(e.args) == 2:
+            n, tn, pn = tr_expr(cx, env, e.args[0])
+            w, tw, pw = tr_expr(cx, env, e.args[1])
+            if tn == tw == 'int':
+                t = cx.tmp()
+                return t, 'int', pn + pw + ['let (%s, %s) ← Py.bioSeek %s %s %s' % (t, b, b, n, w)]
+        raise Unsupported('BytesIO method %s' % unparse(e))
+    if isinstance(e, ast.Call) and dotted(e.func) == 'io.BytesIO' and len(e.args) <= 1 and not e.keywords:
+        if e.args:
+            a, ta, pa = need_tup(cx, *tr_expr(cx, env, e.args[0]))
+        else:
+            a, ta, pa = '([] : Py.Tup)', 'tup', []
+        if ta == 'tup':
+            return '(Py.bioNew %s)' % a, 'bio', pa
+    sc_ = cx.spec.get('stateful_calls', {})
+    if sc_ and isinstance(e, ast.Call) and unparse(e).strip() in sc_:
+        # a call of another method of the same object: the translated method, handed the object state and handing it back
+        info = sc_[unparse(e).strip()]
+        args, pre = [], []
+        for a_ in info['args']:
+            v_, tv_, pv_ = tr_expr(cx, env, ast.parse(a_, mode='eval').body)
+            args.append(v_)
+            pre += pv_
+        t = cx.tmp()
+        outs = [state_var(cx, ast.parse(x_, mode='eval').body) for x_ in info['state']]
+        return t, info['returns'], pre + ['let (%s, %s) ← %s %s' % (t, ', '.join(outs), info['kernel'], ' '.join(args))]
     if isinstance(e, ast.Attribute):
         d = dotted(e)
         if d in cx.consts:
@@ -200,6 +279,9 @@ def tr_expr(cx, env, e):
         b, tb, pb = tr_expr(cx, env, e.right)
         pre = pa + pb
         op = type(e.op)
+        if op is ast.Add and {ta, tb} <= {'tup', 'otup'} and 'otup' in (ta, tb):
+            a, ta, pre = need_tup(cx, a, ta, pre)
+            b, tb, pre = need_tup(cx, b, tb, pre)
         if ta == 'tup' and tb == 'tup' and op is ast.Add:
             return '(%s ++ %s)' % (a, b), 'tup', pre
         if ta == 'int' and tb == 'int':
@@ -344,6 +426,7 @@ def tr_expr(cx, env, e):
             a, ta, pa = tr_expr(cx, env, e.args[0])
             if ta in ('tups', 'pairs'):
                 return '((%s).length : Int)' % a, 'int', pa
+            a, ta, pa = need_tup(cx, a, ta, pa)
             if ta != 'tup':
                 raise Unsupported('len of %s' % ta)
             return '(Py.len %s)' % a, 'int', pa
@@ -470,10 +553,16 @@ def as_bool(a, ta):
         return '(Py.truthy %s)' % a
     if ta == 'tup':
         return '(!(%s).isEmpty)' % a
+    if ta == 'otup':
+        return '(Py.otruthy %s)' % a
     raise Unsupported('truth value of %s' % ta)
 
 
 # ---------------------------------------------------------------- statements
+
+STATE_ATTRS = {}
+STATE_CALLS = {}
+
 
 def assigned(stmts):
     out = []
@@ -491,6 +580,19 @@ def assigned(stmts):
         else:
             raise Unsupported('assignment target %s' % unparse(t))
     for s in stmts:
+        if STATE_ATTRS and not isinstance(s, (ast.If, ast.While, ast.For, ast.Try)):
+            for n_ in ast.walk(s):
+                if (isinstance(n_, ast.Call) and isinstance(n_.func, ast.Attribute) and n_.func.attr in ('read', 'write', 'seek')
+                        and isinstance(n_.func.value, ast.Attribute) and isinstance(n_.func.value.value, ast.Name)
+                        and n_.func.value.value.id == 'self' and n_.func.value.attr in STATE_ATTRS):
+                    add('self_' + n_.func.value.attr)
+                if isinstance(n_, ast.Call) and unparse(n_).strip() in STATE_CALLS:
+                    for x_ in STATE_CALLS[unparse(n_).strip()]:
+                        add(x_)
+        if (isinstance(s, ast.Assign) and len(s.targets) == 1 and isinstance(s.targets[0], ast.Attribute)
+                and isinstance(s.targets[0].value, ast.Name) and s.targets[0].value.id == 'self' and s.targets[0].attr in STATE_ATTRS):
+            add('self_' + s.targets[0].attr)
+            continue
         if isinstance(s, ast.Assign):
             for t in s.targets:
                 tgt(t)
@@ -613,6 +715,28 @@ def tr_block(cx, env, stmts, ret_ty, tail):
         if ti != 'int':
             raise Unsupported('del index')
         return pi + ['let %s ← Py.delAt %s %s' % (nm, nm, i)] + cont(env)
+    if (isinstance(s, ast.Assign) and len(s.targets) == 1 and state_var(cx, s.targets[0])):
+        nm = state_var(cx, s.targets[0])
+        ty = cx.spec['state'][s.targets[0].attr]
+        v, tv, pre = tr_expr(cx, env, s.value)
+        if tv != ty:
+            raise Unsupported('state attribute %s assigned a %s' % (nm, tv))
+        return pre + ['let %s : %s := %s' % (nm, LEAN_TY[ty], v)] + cont(env)
+    if (isinstance(s, ast.Expr) and isinstance(s.value, ast.Call) and isinstance(s.value.func, ast.Attribute)
+            and state_var(cx, s.value.func.value)):
+        v, tv, pre = tr_expr(cx, env, s.value)      # a method call on a state object for its effect
+        return pre + cont(env)
+    if isinstance(s, ast.Return) and cx.spec.get('state_out'):
+        outs = ['self_' + a_ for a_ in cx.spec['state_out']]
+        if s.value is None:
+            return ['pure (%s)' % ', '.join(outs)]
+        v, tv, pre = tr_expr(cx, env, s.value)
+        want = cx.spec.get('returns_value')
+        if want == 'otup' and tv == 'tup':
+            v, tv = '(some %s)' % v, 'otup'
+        if want and tv != want:
+            raise Unsupported('return of %s where %s is declared' % (tv, want))
+        return pre + ['pure (%s, %s)' % (v, ', '.join(outs))]
     if isinstance(s, ast.Return) and s.value is None:
         return ['pure (Sum.inl ())'] if cx.ret_in_loop else ['pure ()']
     if isinstance(s, ast.Return):
@@ -994,6 +1118,16 @@ def translate(spec):
         env[p] = t
         params.append((p, t))
     body = slice_body(fn, spec)
+    STATE_ATTRS.clear()
+    STATE_ATTRS.update(spec.get('state', {}))
+    STATE_CALLS.clear()
+    for k_, info_ in spec.get('stateful_calls', {}).items():
+        STATE_CALLS[k_] = ['self_' + ast.parse(x_, mode='eval').body.attr for x_ in info_['state']]
+    for a_, t_ in spec.get('state', {}).items():
+        env['self_' + a_] = t_
+        params.append(('self_' + a_, t_))
+    if spec.get('state_out') and not terminates(body):
+        body = body + [ast.Return(value=None)]
     digest = hashlib.sha256('\n'.join(ast.dump(s) for s in body).encode()).hexdigest()[:16]
     lines = tr_block(cx, env, body, spec['returns'], None)
     selfp = sorted(cx.self_params.items()) + sorted(cx.expr_params.items())
